@@ -159,7 +159,7 @@ theorem filter_all_true {α : Type} (p : α → Bool) (l : List α) (h : l.all p
   List.filter_eq_self.mpr (fun a ha => List.all_eq_true.mp h a ha)
 
 /-- `unmerge (merge c a) a.id ≈ c` under the guards -/
-theorem unmerge_merge {c : Graph} {a : Adm} {g : Graph} (hc : c.WF) (hm : merge c a = (none, g))
+theorem unmerge_merge {c : Graph} {a : Adm} {g : Graph} (hc : c.WF) (hm : mergeN c a = (none, g))
     (hf : c.Fresh a.id) (hp : c.Proved) (hg : EdgeGuard c a) :
     (unmerge g a.id).1 = none ∧ (unmerge g a.id).2.norm = c.norm := by
   have hs := merge_step hc.closed hm
